@@ -581,6 +581,8 @@ class C02Executor(Executor):
                 if r is not None:
                     return [(st, VStr(r))]
             st.assume(ABSTRACTED)            # %-formatting the model does not follow: opaque text
+        if op == "Mult" and isinstance(a, VInt) and isinstance(b, VStr):
+            a, b = b, a                      # (round 8) `n * s` is `s * n` (sequence repetition commutes); the engine only knows str * int
         if op == "Mult" and isinstance(a, VStr) and isinstance(b, VInt) and b.const() is None:
             n = ops.int_term(b)
             return [(st, VStr(z3.If(n > 0, T.REP(a.t, n), lit(""))))]
